@@ -94,7 +94,7 @@ ApproveReqs(S) ==
        \cup {[r EXCEPT !.sender = s] : s \in {"exec1", "seller1", "stranger"}}
        \cup {[r EXCEPT !.size = s, !.funds = Funds("base", s)] : s \in {sz + 1, sz - 1, 0}}
        \cup {[r EXCEPT !.funds = f] : f \in {NoFunds, Coins1("base", sz), Coins1("base", sz + 1), Coins1("cv1", sz)}}
-       \cup {[r EXCEPT !.base = b, !.funds = Funds(b, sz)] : b \in {"cv1", "q1", ""}}
+       \cup {[r EXCEPT !.base = b, !.funds = Funds(b, sz)] : b \in {"cv1", "q1", "", "BASE"}}
        \cup {[r EXCEPT !.id = i] : i \in {"a1L", "a1T"}}
     : id \in {"a1"}}
 
